@@ -9,8 +9,8 @@ C10 — model of the ignore-directive decision core of /repo:
 * `unused/unused.go`, `(*graph).entry`: the loop filling the `ignores` map and the two lookups per
   object ↦ `u1000Key`, `u1000Keys`, `u1000Used`, `u1000Marked` (transliteration); `u1000Ignores` is
   the same rule for a single directive, stated with `checksMatch`
-* `path/filepath.Match` restricted to patterns over letters/digits/`*`/`?`
-  (no brackets, no escapes, no separators) ↦ `globMatch`
+* `path/filepath.Match` for names without separators: `*`, `?`, character classes, escapes,
+  malformed patterns ↦ `tokenize`, `matchToks`, `globMatch`
 * `strings.ToLower` on ASCII ↦ `lower`
 
 Core Lean only.  The Go loops are transliterated (folds with the accumulators of the Go
@@ -71,24 +71,100 @@ def stripPrefix : List Char → List Char → Option (List Char)
   | _ :: _, [] => none
   | p :: ps, c :: cs => if p = c then stripPrefix ps cs else none
 
-/-! ### filepath.Match on the restricted alphabet -/
+/-! ### filepath.Match
+
+The pattern language of `path/filepath.Match` for names without path separators (check ids):
+`*`, `?`, character classes `[…]`/`[^…]` with ranges and escapes, `\\c`, literal characters.
+`lineIgnore.match`/`fileIgnore.match`/`unused` discard the error (`m, _ := filepath.Match(…)`):
+a malformed pattern (`ErrBadPattern`) matches nothing.  The model reads the pattern into terms
+(`tokenize`, following `matchChunk`/`getEsc`) and matches declaratively (`matchToks`); it is
+compared with the real function on generated patterns, not verified against its loops. -/
 
 /-- does some suffix of `s` satisfy `f` -/
 def anySuffix (f : List Char → Bool) : List Char → Bool
   | [] => f []
   | c :: s => f (c :: s) || anySuffix f s
 
-/-- `filepath.Match(p, s)` for patterns made of literal characters, `*` and `?` and
-names without path separators. -/
-def globMatch : List Char → List Char → Bool
+/-- a term of a `filepath.Match` pattern -/
+inductive GTok
+  | lit (c : Char)
+  | any
+  | star
+  | cls (neg : Bool) (ranges : List (Char × Char))
+deriving DecidableEq, Repr
+
+/-- `getEsc`: one (possibly escaped) character of a character class; the class must go on
+behind it -/
+def getEsc : List Char → Option (Char × List Char)
+  | [] => none
+  | c :: cs =>
+    if c = '-' ∨ c = ']' then none
+    else if c = '\\' then
+      match cs with
+      | [] => none
+      | d :: ds => if ds.isEmpty then none else some (d, ds)
+    else if cs.isEmpty then none else some (c, cs)
+
+/-- the ranges of a character class up to and including the closing `]` (which closes the class
+only after at least one range) -/
+def parseRanges : Nat → List Char → List (Char × Char) → Option (List (Char × Char) × List Char)
+  | 0, _, _ => none
+  | fuel + 1, cs, acc =>
+    match cs, acc with
+    | ']' :: rest, _ :: _ => some (acc.reverse, rest)
+    | _, _ =>
+      match getEsc cs with
+      | none => none
+      | some (lo, cs1) =>
+        match cs1 with
+        | '-' :: cs2 =>
+          match getEsc cs2 with
+          | none => none
+          | some (hi, cs3) => parseRanges fuel cs3 ((lo, hi) :: acc)
+        | _ => parseRanges fuel cs1 ((lo, lo) :: acc)
+
+/-- the terms of a pattern; `none`: `ErrBadPattern` -/
+def tokenize : Nat → List Char → Option (List GTok)
+  | 0, _ => none
+  | _ + 1, [] => some []
+  | fuel + 1, c :: cs =>
+    if c = '*' then (tokenize fuel cs).map (GTok.star :: ·)
+    else if c = '?' then (tokenize fuel cs).map (GTok.any :: ·)
+    else if c = '\\' then
+      match cs with
+      | [] => none
+      | d :: ds => (tokenize fuel ds).map (GTok.lit d :: ·)
+    else if c = '[' then
+      let (neg, body) := match cs with
+        | '^' :: r => (true, r)
+        | _ => (false, cs)
+      match parseRanges (body.length + 1) body [] with
+      | none => none
+      | some (rs, rest) => (tokenize fuel rest).map (GTok.cls neg rs :: ·)
+    else (tokenize fuel cs).map (GTok.lit c :: ·)
+
+def inRanges (c : Char) (rs : List (Char × Char)) : Bool :=
+  rs.any fun r => decide (r.1.val ≤ c.val) && decide (c.val ≤ r.2.val)
+
+def matchToks : List GTok → List Char → Bool
   | [], s => s.isEmpty
-  | '*' :: p, s => anySuffix (globMatch p) s
-  | '?' :: p, s => match s with
+  | .star :: p, s => anySuffix (matchToks p) s
+  | .any :: p, s => match s with
     | [] => false
-    | _ :: s => globMatch p s
-  | c :: p, s => match s with
+    | _ :: s => matchToks p s
+  | .lit c :: p, s => match s with
     | [] => false
-    | d :: s => c == d && globMatch p s
+    | d :: s => c == d && matchToks p s
+  | .cls neg rs :: p, s => match s with
+    | [] => false
+    | d :: s => (inRanges d rs != neg) && matchToks p s
+
+/-- `filepath.Match(p, s)` (`m, _ :=`: a malformed pattern matches nothing) for names without
+path separators -/
+def globMatch (p s : List Char) : Bool :=
+  match tokenize (p.length + 1) p with
+  | none => false
+  | some ts => matchToks ts s
 
 def glob (pat name : String) : Bool := globMatch pat.toList name.toList
 
